@@ -334,15 +334,27 @@ func runService(x *core.Ctx) {
 	type ev struct {
 		topic, id string
 		level     alert.Level
+		op        string // "" collect, "close" CloseTopic (what stopping the task does), "delete" DeleteTopic
 	}
 	topics := []string{"T1", "T2", "T3"}[:r.Range(1, 3)]
 	ids := []string{"a", "b", "c", "d"}
 	var evs []ev
 	for i, n := 0, r.Range(10, 30); i < n; i++ {
-		evs = append(evs, ev{r.Pick(topics), r.Pick(ids), levels4[r.Intn(4)]})
+		e := ev{topic: r.Pick(topics), id: r.Pick(ids), level: levels4[r.Intn(4)]}
+		switch k := r.Intn(100); {
+		case k < 10:
+			e.op = "close"
+		case k < 18:
+			e.op = "delete"
+		}
+		evs = append(evs, e)
 	}
 	var desc []string
 	for i, e := range evs {
+		if e.op != "" {
+			desc = append(desc, fmt.Sprintf("%d:%s(%s)", i, e.op, e.topic))
+			continue
+		}
 		desc = append(desc, fmt.Sprintf("%d:%s/%s=%v", i, e.topic, e.id, e.level))
 	}
 	sub := "service events [" + strings.Join(desc, " ") + "]"
@@ -366,6 +378,18 @@ func runService(x *core.Ctx) {
 	}
 	for i, e := range evs {
 		atomic.StoreInt32(&cur, int32(i))
+		switch e.op {
+		case "close":
+			env.Alert.CloseTopic(e.topic)
+			x.Count("topics_closed", 1)
+			continue
+		case "delete":
+			if err := env.Alert.DeleteTopic(e.topic); err != nil {
+				x.Violatef("collect-error", "DeleteTopic failed", sub, "op %d: %v", i, err)
+			}
+			x.Count("topics_deleted", 1)
+			continue
+		}
 		if err := env.Alert.Collect(alert.Event{Topic: e.topic, State: alert.EventState{ID: e.id, Level: e.level, Message: fmt.Sprint(i), Time: t0.Add(time.Duration(i) * time.Second)}}); err != nil {
 			x.Violatef("collect-error", "Collect failed", sub, "event %d: %v", i, err)
 		}
@@ -374,6 +398,32 @@ func runService(x *core.Ctx) {
 	env.Close()
 	ss.CloseBolt()
 	x.Count("boundaries", int64(len(snaps)))
+	// the file as the clean shutdown left it: every operation has taken effect
+	if disk, err := diskStates(filepath.Join(scratch, "u.db")); err == nil {
+		for _, t := range topics {
+			for _, id := range ids {
+				want := alert.OK
+				for _, e := range evs {
+					switch {
+					case e.topic != t || e.op == "close":
+					case e.op == "delete":
+						want = alert.OK
+					case e.id == id:
+						want = e.level
+					}
+				}
+				got := alert.OK
+				if disk[t] != nil {
+					got = disk[t][id]
+				}
+				x.Count("disk_entries_checked", 1)
+				if got != want {
+					x.Violatef("disk-state", fmt.Sprintf("after a clean shutdown an ID does not have its last non-OK level on disk (disk %v, last level %v)", got, want), sub, "topic %s id %s on disk %v, expected %v", t, id, got, want)
+					return
+				}
+			}
+		}
+	}
 	for _, sn := range snaps {
 		i := int(sn.Point)
 		if i < 0 {
@@ -388,7 +438,15 @@ func runService(x *core.Ctx) {
 			for _, id := range ids {
 				before, after := alert.OK, alert.OK
 				for j := 0; j <= i; j++ {
-					if evs[j].topic == t && evs[j].id == id {
+					switch {
+					case evs[j].topic != t || evs[j].op == "close":
+					case evs[j].op == "delete":
+						// everything the topic knew is gone, whether it was open or closed
+						after = alert.OK
+						if j < i {
+							before = alert.OK
+						}
+					case evs[j].id == id:
 						after = evs[j].level
 						if j < i {
 							before = evs[j].level
@@ -400,7 +458,7 @@ func runService(x *core.Ctx) {
 					got = disk[t][id]
 				}
 				x.Count("disk_entries_checked", 1)
-				inflight := evs[i].topic == t && evs[i].id == id
+				inflight := evs[i].topic == t && (evs[i].id == id || evs[i].op == "delete")
 				if got != after && !(inflight && got == before) {
 					x.Violatef("disk-state", fmt.Sprintf("on disk an ID does not have its last non-OK level (disk %v, last level %v)", got, after), sub, "after commit %d (event %d = %s/%s=%v): topic %s id %s on disk %v, last collected level %v", sn.K, i, evs[i].topic, evs[i].id, evs[i].level, t, id, got, after)
 					return
